@@ -92,9 +92,13 @@ def python_bytes_to_unicode(
             # UTF-8 byte-order mark
             return 'utf-8'
 
-        first_two_lines = re.match(br'(?:[^\r\n]*(?:\r\n|\r|\n)){0,2}', source).group(0)
-        possible_encoding = re.search(br"coding[=:]\s*([-\w.]+)",
-                                      first_two_lines)
+        # Like CPython: the declaration is a comment on the first line, or on
+        # the second line if the first one is blank or a comment as well.
+        possible_encoding = re.match(
+            br"(?:[ \t\f]*(?:#[^\r\n]*)?(?:\r\n|\r|\n))??"
+            br"[ \t\f]*#[^\r\n]*?coding[:=][ \t]*([-\w.]+)",
+            source
+        )
         if possible_encoding:
             e = possible_encoding.group(1)
             if not isinstance(e, str):
